@@ -137,6 +137,24 @@ pub fn gen_c17(seed: u64, thorough: bool, only: Option<u64>, out: &mut Out) {
     let mut badpad = shares_b64[..tt].to_vec();
     badpad[0] = badpad[0].trim_end_matches('=').to_string() + if badpad[0].ends_with('=') { "" } else { "=" };
     variants.push((badpad, epoch.clone(), None, "non-canonical padding"));
+    // lines of unequal length: a share with surplus bytes after / before honest ones, a long line, a short one
+    if let Ok(raw) = BASE64_STANDARD.decode(&shares_b64[0]) {
+      let mut padded = raw.clone();
+      padded.extend(std::iter::repeat(0x41u8).take(64));
+      let long = BASE64_STANDARD.encode(&padded);
+      let mut a = shares_b64[..tt].to_vec();
+      a.push(long.clone());
+      variants.push((a, epoch.clone(), None, "a longer line after the honest shares"));
+      let mut b = vec![long.clone()];
+      b.extend(shares_b64[..tt].iter().cloned());
+      variants.push((b, epoch.clone(), None, "a longer line before the honest shares"));
+      let mut c = shares_b64[..tt.min(1)].to_vec();
+      c.push(BASE64_STANDARD.encode(vec![7u8; 3000]));
+      variants.push((c, epoch.clone(), Some(false), "a 3000-byte line after an honest share"));
+      let mut d = shares_b64[..tt].to_vec();
+      d.insert(1.min(d.len()), "AAAA".to_string());
+      variants.push((d, epoch.clone(), Some(false), "a three-byte line among the honest shares"));
+    }
     for (list, ep, expect, what) in variants {
       let ser = list.join("\n");
       let obs = group_obs(&ser, &ep);
